@@ -168,6 +168,16 @@ def accumulating_stage(ctx, launch):
                 acc = sorted(a for a in appended - reset if a in r.field_assigns.get(t.cls.qual, {}))
                 if acc:
                     return t.short, "self." + acc[0]
+                # read-modify-write of state the stage does not own: X.set_k(.., f(X.k(..))) rewrites its own input in place
+                for q in r.reach_from([t.qual]):
+                    m = p.funcs[q]
+                    for y in walk_own(m.node):
+                        if isinstance(y, ast.Call) and isinstance(y.func, ast.Attribute) and y.func.attr.startswith("set_"):
+                            recv, getter = norm(y.func.value), y.func.attr[4:]
+                            for z in ast.walk(y):
+                                if z is not y and isinstance(z, ast.Call) and isinstance(z.func, ast.Attribute) and z.func.attr == getter \
+                                        and norm(z.func.value) == recv:
+                                    return t.short, "%s (rewritten in place by %s: %s(f(%s(..))))" % (recv, m.short, y.func.attr, getter)
     return None
 
 
